@@ -149,6 +149,11 @@ class Gen:
         if k == "for":
             it, hdr, kind, what = self.iterable(ctx)
             inner = dict(ctx, loop=True, vars=dict(ctx["vars"]))
+            if it in ctx["vars"]:
+                # the loop runs over a list variable: the body must not mutate that list (the interpreter iterates the live list,
+                # so appending to it never ends - as in the host language; the model iterates a snapshot) - no list is visible inside
+                inner["vars"] = {v: t for v, t in inner["vars"].items() if t != "list"}
+                inner["funcs"] = []
             names = hdr.strip("[]").split(", ")
             if kind in ("int",):
                 inner["vars"][names[0]] = "int"
